@@ -813,6 +813,9 @@ class Transaction:
 
         try:
 
+            # pre-chosen inputs must not be picked again while balancing
+            await ledger.reserve_outputs([txi.txo_ref.txo for txi in tx._inputs if txi.txo_ref.txo is not None])
+
             for _ in range(5):
 
                 if payment < cost:
